@@ -112,7 +112,10 @@ def arith (op : ZInt → ZInt → Except IntErr ZInt) : Word := fun f => match f
 
 def addressify (v : ZInt) (d : Dom) : Evs × Nat :=
   let w1 : Evs := if !d.safeArith then [.soft "warn"] else []
-  if ZInt.ltZero v then (w1 ++ [.soft "warn"], 0) else (w1, v.u)
+  if ZInt.ltZero v then (w1 ++ [.soft "warn"], 0)
+  -- the address 2^64-1 (where start + length wraps) is outside the property's universe
+  else if v.u ≥ 2^64 - 1 then (w1 ++ [.hard "unsupported:address-2^64-1"], v.u)
+  else (w1, v.u)
 
 def posMap (f : Nat → α → Val) (l : List α) : List Val := (l.zipIdx).map fun (x, i) => f i x
 
@@ -121,14 +124,14 @@ def wAdd : Word := fun f => match f.stk with
   | .str _ b :: .str _ a :: r => [withStk f (.str 0 (a ++ b) :: r)]
   | .seq _ b :: .seq _ a :: r => [withStk f (.seq 0 (a ++ b) :: r)]
   | .cst _ v d :: .aset _ a :: r =>
-    let (w, x) := addressify v d; w ++ [withStk f (.aset 0 (Cov.wAddCst a x) :: r)]
+    let (w, x) := addressify v d; cutHard (w ++ [withStk f (.aset 0 (Cov.wAddCst a x) :: r)])
   | .aset _ b :: .aset _ a :: r => [withStk f (.aset 0 (Cov.wAddAset a b) :: r)]
   | _ => noOverload
 
 def wSub : Word := fun f => match f.stk with
   | .cst _ _ _ :: .cst _ _ _ :: _ => arith ZInt.sub f
   | .cst _ v d :: .aset _ a :: r =>
-    let (w, x) := addressify v d; w ++ [withStk f (.aset 0 (Cov.wSubCst a x) :: r)]
+    let (w, x) := addressify v d; cutHard (w ++ [withStk f (.aset 0 (Cov.wSubCst a x) :: r)])
   | .aset _ b :: .aset _ a :: r => [withStk f (.aset 0 (Cov.wSubAset a b) :: r)]
   | _ => noOverload
 
@@ -230,7 +233,7 @@ def pCmp (cfg : Cfg) (want : Ord3) : Stack → Option PredR      -- none = under
 def assertWord (positive : Bool) (p : Stack → PredR) : Word := fun f =>
   let (r, evs) := p f.stk
   match r with
-  | some b => evs ++ (if b == positive then [.frame f] else [])
+  | some b => cutHard (evs ++ (if b == positive then [.frame f] else []))
   | none => evs
 
 def cmpWord (cfg : Cfg) (positive : Bool) (want : Ord3) : Word := fun f =>
@@ -246,7 +249,7 @@ def wAsetW : Word := fun f => match f.stk with
   | .cst _ vb db :: .cst _ va da :: r =>
     let (w1, a) := addressify va da
     let (w2, b) := addressify vb db
-    w1 ++ w2 ++ [withStk f (.aset 0 (Cov.wAset a b) :: r)]
+    cutHard (w1 ++ w2 ++ [withStk f (.aset 0 (Cov.wAset a b) :: r)])
   | _ => noOverload
 def wLow : Word := fun f => match f.stk with
   | .aset _ c :: r => (match Cov.wLow c with | some x => [withStk f (natV x .addr :: r)] | none => [])
@@ -350,17 +353,20 @@ def lookupEnv (name : Bytes) : List (Bytes × Val) → Option Val
   | (n, v) :: r => if n = name then some v else lookupEnv name r
 
 /-- consume the events of one expansion of a closure body: unseen results are yielded and
-    queued -/
-def closeStep (ctx : Ctx) (r : Evs) (f : Frame) (seen work : List Stack) :
-    Evs × List Stack × List Stack :=
-  r.foldl (fun (acc : Evs × List Stack × List Stack) e =>
-    let (out, seen, work) := acc
-    match e with
-    | .frame g =>
-      if Val.hasCloList g.stk then (out ++ [unsupportedClo], seen, work)
-      else if seen.any (stackEq ctx.cfg g.stk) then (out, seen, work)
-      else (out ++ [.frame { g with env := f.env }], seen ++ [g.stk], work ++ [g.stk])
-    | e => (out ++ [e], seen, work)) ([], seen, work)
+    queued (`yield_and_cache`) -/
+def closeStep (ctx : Ctx) (f : Frame) : Evs → List Stack → List Stack → Evs × List Stack × List Stack
+  | [], seen, work => ([], seen, work)
+  | .frame g :: es, seen, work =>
+    if Val.hasCloList g.stk then
+      let r := closeStep ctx f es seen work
+      (unsupportedClo :: r.1, r.2.1, r.2.2)
+    else if seen.any (stackEq ctx.cfg g.stk) then closeStep ctx f es seen work
+    else
+      let r := closeStep ctx f es (seen ++ [g.stk]) (work ++ [g.stk])
+      (.frame { g with env := f.env } :: r.1, r.2.1, r.2.2)
+  | e :: es, seen, work =>
+    let r := closeStep ctx f es seen work
+    (e :: r.1, r.2.1, r.2.2)
 
 /-- FORMAT numbers the strings of one input afresh -/
 def numberItems (env : List (Bytes × Val)) : List (Ev × Bytes) → Nat → Evs
@@ -468,7 +474,7 @@ def semClose (ctx : Ctx) : Nat → Tree → Frame → List Stack → List Stack 
       let work' := restRev.reverse
       let r := sem ctx fuel body [.frame { f with stk := w }]
       -- walk the events of this expansion: unseen results are yielded and queued
-      let (out, seen', work'') := closeStep ctx r f seen work'
+      let (out, seen', work'') := closeStep ctx f r seen work'
       if out.any (fun | .hard _ => true | _ => false) then cutHard out
       else out ++ semClose ctx fuel body f seen' work''
 
@@ -513,7 +519,7 @@ def sem1 (ctx : Ctx) : Nat → Tree → Frame → Evs
     | .node .CLOSE_PLUS _ [c] =>
       if Val.hasCloList f.stk then [unsupportedClo] else
       let r := sem ctx fuel c [.frame f]
-      let (out, seen, work) := closeStep ctx r f [] []
+      let (out, seen, work) := closeStep ctx f r [] []
       if out.any (fun | .hard _ => true | _ => false) then cutHard (restoreEnv f.env out)
       else restoreEnv f.env (out ++ semClose ctx fuel c f seen work)
     | .node .FORMAT _ cs =>
